@@ -74,12 +74,31 @@ class Bag(Core.Agent):
         return 0
 
 
+class Pack(Core.Agent):
+    """Agents with value equality: all members of a pack compare equal (and hash alike)."""
+
+    def __eq__(self, other):
+        return isinstance(other, Pack)
+
+    def __hash__(self):
+        return 17
+
+
 def odd_agent(i, m):
-    """Every tenth agent of a population is a nested (empty) environment used as an agent, another tenth a Bag."""
+    """Every tenth agent of a population is a nested (empty) environment used as an agent, another tenth a Bag, two
+    tenths are members of one Pack (they compare equal), and one tenth belongs to a class that carries CLASS components
+    of the very types its instances carry themselves (class components are the class's, not the instance's)."""
     if i % 10 == 7:
         return Core.Environment(m, f'g{i}')
     if i % 10 == 3:
         return Bag(f'g{i}', m)
+    if i % 10 in (1, 9):
+        return Pack(f'g{i}', m)
+    if i % 10 == 5:
+        Herd = type('Herd', (Core.Agent,), {})
+        Herd.add_class_component(X(Herd, m))
+        Herd.add_class_component(Y(Herd, m))
+        return Herd(f'g{i}', m)
     return Core.Agent(f'g{i}', m)
 
 
@@ -193,7 +212,7 @@ def scale_cases(tier):
     kinds = ('plain', 'grid') if tier == 'quick' else ('plain', 'space', 'discrete', 'line', 'grid')
     for kind in kinds:
         for n in (5, 40):
-            for victims in ([0], [1, 3], [n // 2, 0, n - 1], [n - 1]):
+            for victims in ([0], [1, 3], [n // 2, 0, n - 1], [n - 1]) + (([5, 9, 11], [21, 1, 15]) if n == 40 else ()):
                 for comp in (None, ('join', 2), ('leave', victims[0])):
                     yield {'leg': 'population', 'kind': kind, 'n': n, 'victims': victims,
                            'complete_at': comp}
